@@ -16,9 +16,12 @@ import (
 	"fmt"
 	"go/parser"
 	"go/token"
+	"go/types"
 	"os"
 	"os/exec"
 	"path/filepath"
+	"regexp"
+	"sort"
 	"strings"
 )
 
@@ -67,6 +70,8 @@ func testPrograms() []luaProgram {
 		{"inline-two-levels", "root packet R { u8 h, outer { u16 x, inner { u32 y, char[4] z, }, }, u8 t, }\n"},
 		{"match-with-trailer", "root packet R { u16 kind, u32 len @lengthOf(body), match kind as body { 1 : A, 2 : B, }, u32 sum @calculatedFrom(\"crc\"), }\npacket A { u8 a, }\npacket B { repeat u16 b, string s, }\n"},
 		{"match-in-nested", "packet A { u8 a, }\npacket B { string s, }\npacket Body { u16 kind, match kind as payload { 1 : A, 2 : B, }, }\nroot packet R { Body b, u32 checksum, }\n"},
+		{"match-alternative-with-members", "packet Leaf { u8 v, }\npacket A { Leaf l, repeat Leaf ls, inner { u16 w, }, }\npacket B { u8 b, }\nroot packet R { u16 kind, match kind as body { 1 : A, 2 : B, }, u8 t, }\n"},
+		{"inline-then-object", "packet Trailer { u8 t, }\npacket Price { u32 p, }\nroot packet R { repeat Leg { u32 qty, }, Trailer trailer, Side { u8 flag, Price px, }, }\n"},
 		{"options", "options { LittleEndian = true; ArrayPrefixLenType = u32; StringPrefixLenType = u8; GoPackage = \"pkt\"; GoModule = \"example.com/pkt\"; }\npacket Item { u8 b, }\nroot packet R { repeat Item items, string s, }\n"},
 	}
 	return ps
@@ -101,13 +106,33 @@ func testFileObligations() []emitObl {
 				fname, src := part[:k], part[k+1:]
 				nfiles++
 				if lang == "go" {
-					if _, err := parser.ParseFile(token.NewFileSet(), fname, src, 0); err != nil {
+					f, err := parser.ParseFile(token.NewFileSet(), fname, src, 0)
+					if err != nil {
 						problems = append(problems, fname+": "+err.Error())
+					} else {
+						// identifiers the file uses without declaring them (imports and the universe excluded)
+						known := map[string]bool{}
+						for _, im := range f.Imports {
+							if im.Name != nil {
+								known[im.Name.Name] = true
+							} else {
+								pth := strings.Trim(im.Path.Value, "\"")
+								known[pth[strings.LastIndex(pth, "/")+1:]] = true
+							}
+						}
+						seen := map[string]bool{}
+						for _, id := range f.Unresolved {
+							if known[id.Name] || types.Universe.Lookup(id.Name) != nil || seen[id.Name] {
+								continue
+							}
+							seen[id.Name] = true
+							problems = append(problems, fname+": identifier `"+id.Name+"` is used but never declared")
+						}
 					}
 				} else {
 					f := filepath.Join(tmp, "t.py")
 					os.WriteFile(f, []byte(src), 0644)
-					c := exec.Command("python3", "-c", "import ast,sys; ast.parse(open(sys.argv[1]).read())", f)
+					c := exec.Command("python3", "-c", pyNamesScript, f)
 					if o, err := c.CombinedOutput(); err != nil {
 						ls := strings.Split(strings.TrimSpace(string(o)), "\n")
 						problems = append(problems, fname+": "+ls[len(ls)-1])
@@ -125,3 +150,80 @@ func testFileObligations() []emitObl {
 	}
 	return out
 }
+
+// testRepeatObligations: the sample of a repeated member must be a collection, so the text the emitter
+// returns for the repeated cell cannot be the text it returns for the same member unrepeated.
+var opaqueIDRe = regexp.MustCompile(`(<ret\.[^>#]*)#[0-9]+`)
+
+func testRepeatObligations(runs []emitRun) []emitObl {
+	byID := map[string]*emitRun{}
+	for i := range runs {
+		if runs[i].entry.Dir == "test" && runs[i].err == "" {
+			byID[runs[i].entry.Lang+"|"+runs[i].cell.ID] = &runs[i]
+		}
+	}
+	texts := func(r *emitRun) string {
+		var l []string
+		for _, p := range r.paths {
+			l = append(l, opaqueIDRe.ReplaceAllString(flatText(p.text), "$1")) // results of summarised recursive calls carry a fresh number
+		}
+		sort.Strings(l)
+		return strings.Join(l, "\x00")
+	}
+	var out []emitObl
+	for i := range runs {
+		r := &runs[i]
+		if r.entry.Dir != "test" || !r.cell.Repeat || r.err != "" || len(r.paths) == 0 {
+			continue
+		}
+		sib := byID[r.entry.Lang+"|"+strings.Replace(r.cell.ID, ":repeat", "", 1)]
+		if sib == nil || len(sib.paths) == 0 {
+			continue
+		}
+		same := texts(r) == texts(sib)
+		out = append(out, emitObl{Name: fmt.Sprintf("EMIT:%s:test:%s:repeat-shape", r.entry.Lang, r.cell.ID), Props: []string{"C17"}, OK: !same,
+			Detail: "the sample of a repeated member is built as a collection: the emitted text must differ from the text for the same member unrepeated"})
+	}
+	return out
+}
+
+// pyNamesScript: the file parses, and every name a function body loads is a parameter, assigned in that
+// body, imported / defined at module level, or a builtin.
+const pyNamesScript = `
+import ast, sys, builtins
+src = open(sys.argv[1]).read()
+tree = ast.parse(src)
+mod = set(dir(builtins))
+for n in ast.walk(tree):
+    if isinstance(n, (ast.Import, ast.ImportFrom)):
+        for a in n.names:
+            mod.add((a.asname or a.name).split('.')[0])
+            if a.name == '*':
+                mod.add('*')
+for n in tree.body:
+    if isinstance(n, (ast.FunctionDef, ast.ClassDef)):
+        mod.add(n.name)
+    if isinstance(n, ast.Assign):
+        for t in n.targets:
+            for x in ast.walk(t):
+                if isinstance(x, ast.Name):
+                    mod.add(x.id)
+bad = []
+if '*' not in mod:
+    for fn in ast.walk(tree):
+        if isinstance(fn, ast.FunctionDef):
+            local = {a.arg for a in fn.args.args + fn.args.kwonlyargs}
+            for x in ast.walk(fn):
+                if isinstance(x, ast.Name) and isinstance(x.ctx, ast.Store):
+                    local.add(x.id)
+                if isinstance(x, (ast.For, ast.comprehension)):
+                    for y in ast.walk(x.target):
+                        if isinstance(y, ast.Name):
+                            local.add(y.id)
+            for x in ast.walk(fn):
+                if isinstance(x, ast.Name) and isinstance(x.ctx, ast.Load) and x.id not in local and x.id not in mod:
+                    bad.append(x.id)
+if bad:
+    sys.stderr.write('names used but never bound: ' + ', '.join(sorted(set(bad))))
+    sys.exit(1)
+`
